@@ -241,6 +241,10 @@ func (p *parser) parseFunctionParameterList() *ast.ParameterList {
 				p.comments.Unset()
 			}
 			p.expect(token.COMMA)
+			if p.token == token.RIGHT_PARENTHESIS {
+				// FormalParameterList (ES5 13) has no trailing comma.
+				p.errorUnexpectedToken(p.token)
+			}
 		}
 	}
 	closing := p.expect(token.RIGHT_PARENTHESIS)
